@@ -57,3 +57,35 @@ def none_cells_pointwise(n: Int):
     ensures(len(rep_cells(cell(None), n)) == n, 'length')
     ensures(forall(Int, lambda i: implies(0 <= i and i < n, rep_cells(cell(None), n)[i] == cell(None))), 'all_none')
     induct(n)
+
+
+@spec
+def bucket(rows: Seq[RecV], kidx: Seq[Int], key: JKey, m: Int) -> Seq[Tuple[Opt[Int], Int, RecV]]:
+    # C04: the B records among the first m whose key equals `key`, in B order, each with its 1-based number and width
+    if m <= 0:
+        return []
+    if jkey_of(m, rows[m - 1], kidx) == key:
+        return bucket(rows, kidx, key, m - 1) + [tup(some(m), len(rows[m - 1]), rows[m - 1])]
+    return bucket(rows, kidx, key, m - 1)
+
+
+@spec
+def max_width(rows: Seq[RecV], m: Int) -> Int:
+    # the largest number of fields among the first m records (0 for none): the width of the LEFT JOIN null record
+    if m <= 0:
+        return 0
+    if len(rows[m - 1]) > max_width(rows, m - 1):
+        return len(rows[m - 1])
+    return max_width(rows, m - 1)
+
+
+@spec
+def first_short_row(rows: Seq[RecV], kidx: Seq[Int], m: Int) -> Int:
+    # 0-based index of the first of the first m records that lacks a key field, or -1
+    if m <= 0:
+        return -1
+    if first_short_row(rows, kidx, m - 1) != -1:
+        return first_short_row(rows, kidx, m - 1)
+    if first_bad_key(rows[m - 1], kidx, 0) != -1:
+        return m - 1
+    return -1
